@@ -140,6 +140,7 @@ impl LineIndex {
 //@@ LuaDocument
 
 impl<'a> LuaDocument<'a> {
+    //@@ LuaDocument::get_line
     //@@ LuaDocument::get_line_col
     //@@ LuaDocument::get_offset
     //@@ LuaDocument::get_col_offset_at_line
@@ -147,6 +148,38 @@ impl<'a> LuaDocument<'a> {
     //@@ LuaDocument::to_lsp_range
     //@@ LuaDocument::to_lsp_position
     //@@ LuaDocument::to_rowan_range
+}
+
+// ---- C19: the scopes of `---@diagnostic disable-next-line` / `disable-line` (statement slices of
+// analyze_diagnostic_disable_next_line / analyze_diagnostic_disable_line in diagnostic_tags.rs)
+//@@ diagnostic_tags::next_line_scope
+//@@ diagnostic_tags::line_scope
+
+// ---- C21: DiagnosticContext::translate_range (checker/mod.rs), projected to `file_id` and `db` --------
+#[derive(Clone, Copy, PartialEq, Eq)]
+pub struct FileId { pub id: u32 }
+#[verifier::external_body]
+pub struct Vfs { _p: () }
+#[verifier::external_body]
+pub struct DbIndex { _p: () }
+pub uninterp spec fn sp_vfs(db: &DbIndex) -> &Vfs;
+/// the bytes of the text the Vfs holds for a file (None: unknown file)
+pub uninterp spec fn sp_file_bytes(vfs: &Vfs, f: FileId) -> Option<Seq<u8>>;
+impl DbIndex {
+    #[verifier::external_body]
+    pub fn get_vfs(&self) -> (r: &Vfs) ensures r == sp_vfs(self) { unimplemented!() }
+}
+impl Vfs {
+    /// Vfs::get_document pairs a file's text with the LineIndex parsed from that text (representation
+    /// invariant of LuaDocument; Vfs itself is not under contract)
+    #[verifier::external_body]
+    pub fn get_document<'a>(&'a self, file_id: &FileId) -> (r: Option<LuaDocument<'a>>)
+        ensures r matches Some(d) ==> wf(d.line_index, d.text.spec_bytes()) && sp_file_bytes(self, *file_id) == Some(d.text.spec_bytes()),
+    { unimplemented!() }
+}
+//@@ DiagnosticContext
+impl<'a> DiagnosticContext<'a> {
+    //@@ DiagnosticContext::translate_range
 }
 
 } // verus!
